@@ -17,7 +17,7 @@ def run(rep):
     syntactic.caught_exceptions_do_not_escape(rep)
     q = rep.tier == 'quick'
     fw.standin(rep, 's_c17.py', ['run', rep.seed, 1000 if q else 6000],
-               'fault enumeration: finite/deep/left-recursive/infinite programs x limits x projection raising at answer k',
+               'fault enumeration: finite/deep/left-recursive/infinite programs x limits x projection raising at answer k or returning None for one answer',
                'limits {60,100,200,400}; depth parameters up to 1000')
     rep.notes.append('proved for all queries and projection functions: (i) the recursion limit is restored on every exit edge, (ii) no '
                      'RecursionError escapes (only the projection function\'s own exception does), (iii) one projected value per consumed '
